@@ -48,6 +48,8 @@ static struct xcm_socket *ep[3];	/* 1 = connecting side, 2 = accepted side */
 static int kfd[3];	/* kernel data descriptor of each endpoint (-1 unknown) */
 static int xfd0[3];	/* xcm_fd() at establishment */
 static int rawfd = -1;
+static struct xcm_socket *rawxs;	/* raw peer of a tls connection: a btls (byte-stream) XCM socket, which can put
+					   arbitrary bytes into the TLS stream after a genuine handshake */
 static long raw_written;
 
 /* content oracle */
@@ -435,6 +437,10 @@ static void close_all(void)
 	close(rawfd);
 	rawfd = -1;
     }
+    if (rawxs) {
+	xcm_close(rawxs);
+	rawxs = NULL;
+    }
 }
 
 static int find_kfd(int ctx)
@@ -513,7 +519,39 @@ static int setup(const char *tpname, const char *mode)
 	strcpy(saddr, tmp);
     }
 
-    if (raw_mode) {
+    if (raw_mode && strcmp(base, "tls") == 0) {
+	/* hostile peer of a tls connection: a btls client; its bytes are what the tls framing layer of endpoint 1 reads */
+	char baddr[256];
+	snprintf(baddr, sizeof(baddr), "btls:%s", strchr(saddr, ':') + 1);
+	struct xcm_attr_map *ba = nb_attrs();
+	xcm_attr_map_add_str(ba, "xcm.service", "bytestream");
+	rawxs = xcm_connect_a(baddr, ba);
+	xcm_attr_map_destroy(ba);
+	if (rawxs == NULL) {
+	    fprintf(stderr, "setup: raw btls connect: %s\n", strerror(errno));
+	    return -1;
+	}
+	bool okr = false, ok1 = false;
+	for (int i = 0; i < 20000 && !(okr && ok1); i++) {
+	    if (ep[1] == NULL) {
+		shim_enter(1);
+		ep[1] = xcm_accept_a(srv, a);
+		shim_leave();
+	    }
+	    okr = xcm_finish(rawxs) == 0;
+	    if (ep[1]) {
+		shim_enter(1);
+		ok1 = xcm_finish(ep[1]) == 0;
+		shim_leave();
+	    }
+	    if (!(okr && ok1))
+		usleep(200);
+	}
+	if (!(okr && ok1)) {
+	    fprintf(stderr, "setup: raw btls establishment did not complete\n");
+	    return -1;
+	}
+    } else if (raw_mode) {
 	/* endpoint 1 is the library's accepted connection?  No: endpoint 1 is
 	   always a library socket; in raw mode the library side is the
 	   accepting (server) side when mode == "raw" and the connecting side
@@ -1114,7 +1152,10 @@ static void do_await(int e, int cond)
 
 static void do_close(int e, int rst)
 {
-    if (raw_mode && e == 2) {
+    if (raw_mode && e == 2 && rawxs != NULL) {
+	xcm_close(rawxs);	/* an orderly TLS close (close_notify) */
+	rawxs = NULL;
+    } else if (raw_mode && e == 2) {
 	if (rawfd >= 0) {
 	    if (rst) {
 		struct linger lg = { 1, 0 };
@@ -1369,9 +1410,36 @@ static void do_rawwrite(long k)
 	}
 	done += r;
     }
+    for (int spins = 0; done < k && rawxs != NULL && spins < 20000; spins++) {
+	int r = xcm_send(rawxs, rawpend + rawpend_off + done, k - done);
+	if (r < 0) {
+	    if (errno == EAGAIN) { usleep(200); continue; }
+	    break;
+	}
+	done += r;
+    }
+    if (rawxs)
+	for (int i = 0; i < 2000 && xcm_finish(rawxs) < 0 && errno == EAGAIN; i++)
+	    usleep(100);
     rawpend_off += done;
     raw_written += done;
     settle();
+    if (rawxs != NULL && kfd[1] >= 0) {
+	/* TLS: wire bytes differ from plaintext bytes; wait until the receiving kernel queue has stopped growing */
+	int last = -2, same = 0;
+	for (int i = 0; i < 4000 && same < 40; i++) {
+	    int av = fionread(kfd[1]);
+	    if (av == last && av > 0)
+		same++;
+	    else if (av != last)
+		same = 0;
+	    else if (++same >= 100)
+		break;
+	    last = av;
+	    struct timespec ts = { 0, 50000 };
+	    nanosleep(&ts, NULL);
+	}
+    }
     F.len = done;
     emit_begin("w", 2);
     emit_noio();
